@@ -209,7 +209,7 @@ impl FixtureDatabase {
 
     /// Get file content from cache or read from filesystem.
     /// Returns None if file cannot be read.
-    pub(crate) fn get_file_content(&self, file_path: &Path) -> Option<Arc<String>> {
+    pub fn get_file_content(&self, file_path: &Path) -> Option<Arc<String>> {
         if let Some(cached) = self.file_cache.get(file_path) {
             Some(Arc::clone(cached.value()))
         } else {
